@@ -18,8 +18,8 @@ import (
 	"fmt"
 	"net/url"
 	"regexp"
+	"strings"
 
-	"github.com/oxia-db/oxia/common/compare"
 	"github.com/oxia-db/oxia/common/constant"
 
 	"github.com/pkg/errors"
@@ -330,10 +330,11 @@ func secondaryIndexGet(req *proto.GetRequest, db kv.DB) (*proto.GetResponse, err
 	return gr, err
 }
 
-//nolint:revive
 func doSecondaryGet(db kv.DB, req *proto.GetRequest) (primaryKey string, secondaryKey string, err error) {
 	indexName := *req.SecondaryIndexName
-	searchKey := fmt.Sprintf(secondaryIdxRangePrefixFormat, indexName, req.Key)
+	// All the entries of this index, and only them, start with this prefix
+	indexPrefix := fmt.Sprintf(secondaryIdxRangePrefixFormat, indexName, "")
+	searchKey := indexPrefix + req.Key
 
 	it, err := db.KeyIterator()
 	if err != nil {
@@ -342,54 +343,48 @@ func doSecondaryGet(db kv.DB, req *proto.GetRequest) (primaryKey string, seconda
 
 	defer func() { _ = it.Close() }()
 
-	if req.ComparisonType == proto.KeyComparisonType_LOWER {
+	// current returns the entry the iterator is positioned on, if it belongs to this index
+	current := func() (pk string, sk string, ok bool) {
+		if !it.Valid() || !strings.HasPrefix(it.Key(), indexPrefix) {
+			return "", "", false
+		}
+		pk, sk, err := secondaryIndexPrimaryAndSecondaryKey(it.Key())
+		return pk, sk, err == nil
+	}
+
+	switch req.ComparisonType {
+	case proto.KeyComparisonType_LOWER:
 		it.SeekLT(searchKey)
-	} else {
-		// For all the other cases, we set the iterator on >=
+
+	case proto.KeyComparisonType_FLOOR:
+		it.SeekGE(searchKey)
+		if _, sk, ok := current(); !ok || sk != req.Key {
+			it.SeekLT(searchKey)
+		}
+
+	case proto.KeyComparisonType_HIGHER:
+		it.SeekGE(searchKey)
+		for {
+			if _, sk, ok := current(); !ok || sk != req.Key {
+				break
+			}
+			it.Next()
+		}
+
+	default:
+		// EQUAL and CEILING
 		it.SeekGE(searchKey)
 	}
 
-	for it.Valid() {
-		itKey := it.Key()
-		primaryKey, secondaryKey, err = secondaryIndexPrimaryAndSecondaryKey(itKey)
-		if err != nil && !errors.Is(err, errFailedToParseSecondaryKey) {
-			return "", "", err
-		}
-
-		cmp := compare.CompareWithSlash([]byte(req.Key), []byte(secondaryKey))
-
-		switch req.ComparisonType {
-		case proto.KeyComparisonType_EQUAL:
-			if cmp != 0 {
-				primaryKey = ""
-			}
-			return primaryKey, secondaryKey, err
-
-		case proto.KeyComparisonType_FLOOR:
-			if primaryKey == "" || cmp < 0 {
-				it.Prev()
-			} else {
-				return primaryKey, secondaryKey, err
-			}
-
-		case proto.KeyComparisonType_LOWER:
-			if cmp <= 0 {
-				it.Prev()
-			} else {
-				return primaryKey, secondaryKey, err
-			}
-
-		case proto.KeyComparisonType_CEILING:
-			return primaryKey, secondaryKey, err
-
-		case proto.KeyComparisonType_HIGHER:
-			if cmp >= 0 {
-				it.Next()
-			} else {
-				return primaryKey, secondaryKey, err
-			}
-		}
+	primaryKey, secondaryKey, ok := current()
+	if !ok {
+		// There is no such entry within the boundaries of this index
+		return "", "", nil
 	}
 
-	return primaryKey, secondaryKey, err
+	if req.ComparisonType == proto.KeyComparisonType_EQUAL && secondaryKey != req.Key {
+		return "", secondaryKey, nil
+	}
+
+	return primaryKey, secondaryKey, nil
 }
